@@ -45,7 +45,11 @@ RULE = ("Runs: the runs of C01's enumeration (feature trees x step-outcome devia
         "directories, trailing slash, explicit files in two orders, one file, file:LINE, directory + file, ./file, "
         "absolute files / directories) x 2 outcome variants x show_skipped on/off: every reported feature has exactly "
         "one document of its own and the class-name part of testsuite@name / testcase@classname is neither empty nor "
-        "'None'. Oracle (per reported feature): the TESTS-*.xml file exists "
+        "'None'. Process locale: 27 hostile programs (all-ASCII control; each slot singly and all ten slots at once with "
+        "e-acute and U+1F600) executed in child interpreters started with an ASCII locale (LC_ALL=C, PYTHONUTF8=0, "
+        "PYTHONCOERCECLOCALE=0; verified in the child) and with a UTF-8 locale as control: the oracle is applied to the "
+        "bytes of the reports (expat assumes UTF-8 without declaration) and the non-ASCII text must be in the parsed "
+        "documents. Oracle (per reported feature): the TESTS-*.xml file exists "
         "(unless the feature is skipped and hidden) and parses with expat; its testcase entries are the feature's "
         "scenarios in order (outline rows included, skipped ones iff shown) with the final status of the Scenario object "
         "that was executed (recorded by a formatter during the run; a post-run model that holds other objects/statuses "
@@ -538,9 +542,14 @@ def check_reports(v, feats, outdir, shown, info, filemap=None):
             doc = minidom.parseString(raw)
         except (ExpatError, ValueError, UnicodeError) as e:
             where, attr = locate_ill_formed(raw, e)
+            if "unclosed token" in str(e) or "no element found" in str(e):
+                where = "truncated-document"
             slot, aclass = blame(raw, e, attr, info)
-            v.append(({"subcheck": "xml", "clause": "ill-formed", "slot": slot, "atom_class": aclass,
-                       "where": where, "attr": attr},
+            desc = {"subcheck": "xml", "clause": "ill-formed", "slot": slot, "atom_class": aclass,
+                    "where": where, "attr": attr}
+            if info.get("encoding"):
+                desc["encoding"] = info["encoding"]
+            v.append((desc,
                       "%s does not parse with expat: %s; offending region: %s" % (fname, e, where_text(raw, e))))
             summary.append((fname, "ill-formed"))
             continue
@@ -732,7 +741,7 @@ def finish(v, summary, case, nontrivial, marks=()):
         else:
             classes.add(item[1])
     interesting = nontrivial or any(c for c in classes if not isinstance(c, tuple) or
-                                    (c[0] not in ("seen", "addressed", "rowless-block") and c[1:] != (False, False, False)))
+                                    (c[0] not in ("seen", "addressed", "rowless-block", "locale") and c[1:] != (False, False, False)))
     return {"v": v, "dg": flat, "out": tuple(sorted(map(repr, classes))), "n": 1,
             "nt": digest(case) if interesting else None}
 
@@ -852,6 +861,143 @@ def run_hostile(case):
             if marker in u"\n".join(info.get("doc_text", ())):
                 marks.append(("seen", slot))
         return finish(v, summary, case, bool(assign), marks)
+    finally:
+        shutil.rmtree(d, ignore_errors=True)
+
+
+# ------------------------------------------------------------------ process locale / preferred file encoding
+# The bytes of a report must not depend on the environment of the process that wrote it. A child interpreter is started
+# with an ASCII locale (and one with a UTF-8 locale as control), runs a batch of hostile programs with non-ASCII atoms
+# and writes the reports; the parent applies the oracle to the bytes.
+LOCALE_ENVS = {
+    "ascii": {"LC_ALL": "C", "LANG": "C", "LC_CTYPE": "C", "PYTHONUTF8": "0", "PYTHONCOERCECLOCALE": "0"},
+    "utf-8": {"LC_ALL": "C.UTF-8", "LANG": "C.UTF-8", "LC_CTYPE": "C.UTF-8", "PYTHONUTF8": "0", "PYTHONCOERCECLOCALE": "0"},
+}
+LOCALE_ATOMS = ("eacute", "astral")
+ASCII_NAMES = ("ascii", "ansi_x3.4-1968", "us-ascii", "646")
+LOCALE_BATCH = 8
+
+
+def locale_programs():
+    """(shape, assignment, show_skipped): an all-ASCII control, every slot singly with each non-ASCII atom on a shape that
+    holds the slot, all ten slots at once on three shapes"""
+    progs = [("mixed", (), True)]
+    for aid in LOCALE_ATOMS:
+        for slot in SLOTS:
+            progs.append(("hooks" if slot == "hook-message" else "mixed", ((slot, aid),), True))
+        for shape in ("mixed", "outline", "hooks"):
+            progs.append((shape, tuple((slot, aid) for slot in SLOTS), shape != "outline"))
+    return progs
+
+
+def locale_cases():
+    progs = locale_programs()
+    for env in ("ascii", "utf-8"):
+        for i in range(0, len(progs), LOCALE_BATCH):
+            yield (env, tuple(progs[i:i + LOCALE_BATCH]))
+
+
+def child_main(jobfile):
+    """runs in the child interpreter: executes the batch, writes reports below the job's directory and result.json (ASCII)"""
+    import json, locale
+    with open(jobfile) as f:
+        job = json.load(f)
+    base = os.path.dirname(jobfile)
+    out = {"preferred": locale.getpreferredencoding(False), "fsenc": sys.getfilesystemencoding(),
+           "utf8_mode": sys.flags.utf8_mode, "subs": []}
+    for k, (shape, assign, show) in enumerate(job["programs"]):
+        assign = tuple((sl, a) for sl, a in assign)
+        _, tagexpr, feat_hook = HSHAPES[shape]
+        d = os.path.join(base, "r%d" % k)
+        args = ["--junit", "--junit-directory", d, "--no-summary", "--show-skipped" if show else "--no-skipped"]
+        if tagexpr:
+            args.append("--tags=%s" % tagexpr)
+        text = render_hostile(shape, assign)
+        second = u"Feature: Second\n  Scenario: Tail\n    Given step 1 pass\n"
+        escaped, feats, config, raised, rec = run_text([text, second], args, assign, feat_hook)
+        v, info = [], {}
+        execution_truth(v, feats, rec, info)
+        sub = {"escaped": list(escaped) if escaped else None, "raised": list(raised), "differs": v, "features": []}
+        for fi, f in enumerate(feats):
+            sub["features"].append({
+                "name": f.name, "filename": f.filename, "status": f.status.name,
+                "scenarios": [{"name": sc.name, "status": sc.status.name,
+                               "steps": [[x.name, x.status.name] for x in sc.all_steps]} for sc in info["truth"][fi]]})
+        out["subs"].append(sub)
+    with open(os.path.join(base, "result.json"), "w") as f:
+        json.dump(out, f, ensure_ascii=True)
+
+
+class _Status(object):
+    def __init__(self, name):
+        self.name = name
+
+    def is_passed(self):
+        return self.name in ("passed", "xfailed", "xpassed", "pending_warn")
+
+
+class _Node(object):
+    def __init__(self, **kw):
+        self.__dict__.update(kw)
+
+
+def run_locale(case):
+    """case = (environment key, ((shape, assignment, show_skipped), ...)): one child interpreter per case"""
+    import json, subprocess
+    from vlib import core
+    envkey, programs = case
+    d = tempfile.mkdtemp(dir=SHM, prefix="c16run-%d-loc-" % _run_tag())
+    try:
+        jobfile = os.path.join(d, "job.json")
+        with open(jobfile, "w") as f:
+            json.dump({"programs": [[sh, [list(x) for x in asg], show] for sh, asg, show in programs]}, f,
+                      ensure_ascii=True)
+        env = {k: val for k, val in os.environ.items() if not (k.startswith("LC_") or k in ("LANG", "LANGUAGE"))}
+        env.update(LOCALE_ENVS[envkey])
+        boot = ("import sys; sys.path[:0] = [%r, %r]; from checks import c16_junit as C; C.child_main(sys.argv[1])"
+                % (core.repo_dir(), core.VERIF))
+        proc = subprocess.run([sys.executable, "-c", boot, jobfile], env=env, cwd=core.VERIF,
+                              stdout=subprocess.PIPE, stderr=subprocess.PIPE, timeout=300)
+        respath = os.path.join(d, "result.json")
+        if proc.returncode != 0 or not os.path.exists(respath):
+            raise AssertionError("locale child failed (%s): %s" % (proc.returncode, proc.stderr.decode("utf-8", "replace")[-2000:]))
+        with open(respath) as f:
+            res = json.load(f)
+        enc = res["preferred"].lower()
+        applicable = (enc in ASCII_NAMES) if envkey == "ascii" else enc.replace("-", "") == "utf8"
+        results = []
+        for k, ((shape, assign, show), sub) in enumerate(zip(programs, res["subs"])):
+            v = [(dict(dd), mm) for dd, mm in sub["differs"]]
+            feats, truth = [], {}
+            for fi, fd in enumerate(sub["features"]):
+                feats.append(_Node(name=fd["name"], filename=fd["filename"], status=_Status(fd["status"])))
+                truth[fi] = [_Node(name=sd["name"], status=_Status(sd["status"]),
+                                   all_steps=[_Node(name=n, status=_Status(st)) for n, st in sd["steps"]])
+                             for sd in fd["scenarios"]]
+            info = {"hostile": True, "atoms": tuple(assign), "raised": sub["raised"], "truth": truth,
+                    "roundtrip": True, "encoding": envkey, "escaped": bool(sub["escaped"])}
+            if sub["escaped"]:
+                v.append(({"subcheck": "reporter", "clause": "raises", "exc": sub["escaped"][0],
+                           "trigger": "preferred-encoding:" + envkey},
+                          "with locale.getpreferredencoding()=%s run() raised %s: %s"
+                          % (res["preferred"], sub["escaped"][0], sub["escaped"][1])))
+            summary = check_reports(v, feats, os.path.join(d, "r%d" % k), bool(show), info)
+            # -- the non-ASCII text round-trips: the marker of every assigned slot is in the parsed documents
+            text = u"\n".join(info.get("doc_text", ()))
+            if not sub["escaped"]:
+                for slot, aid in assign:
+                    marker = (u"%sx" if slot == "tag" else u"a%sb") % ATOM[aid][1]
+                    if marker not in text:
+                        v.append(({"subcheck": "locale", "clause": "text-lost", "slot": slot,
+                                   "atom_class": ATOM[aid][2], "encoding": envkey},
+                                  "preferred encoding %s: %r of slot %s is in no parsed report"
+                                  % (res["preferred"], marker, slot)))
+            summary.append(("escaped", sub["escaped"] and sub["escaped"][0]))
+            r = finish(v, summary, (envkey, (programs[k],)), bool(assign),
+                       [("locale", envkey, "applicable" if applicable else "not-applicable:" + enc)])
+            r["case"] = (envkey, (programs[k],))
+            results.append(r)
+        return results
     finally:
         shutil.rmtree(d, ignore_errors=True)
 
@@ -1100,7 +1246,8 @@ def run(ctx):
                   "pair_atoms": len(QUICK_PAIR_ATOMS) if ctx.quick else len(ATOMS),
                   "switch_combinations": 128, "switch_shapes": len(SWITCH_SHAPES),
                   "addressing_modes": len(ADDR_MODES), "composite_atoms": len(COMPOSITES),
-                  "composite_shapes": len(QUICK_COMPOSITE_SHAPES) if ctx.quick else len(SINGLE_SHAPES)}
+                  "composite_shapes": len(QUICK_COMPOSITE_SHAPES) if ctx.quick else len(SINGLE_SHAPES),
+                  "locale_environments": sorted(LOCALE_ENVS), "locale_programs": len(locale_programs())}
     ctx.sweep(run_hostile, single_cases(), chunk=16, name="hostile singles (slot x atom x shape x show_skipped)")
     seen = set()
     for out in ctx.outcomes:
@@ -1110,6 +1257,12 @@ def run(ctx):
                                        "(seen: %s)" % sorted(seen))
     ctx.sweep(run_hostile, composite_cases(ctx.tier), chunk=16,
               name="composite atoms (one filter pass creating another pass's token) x slot")
+    ctx.sweep(run_locale, locale_cases(), chunk=1, name="child interpreters with ASCII / UTF-8 locale x non-ASCII programs")
+    flat_loc = " ".join(" ".join(out) for out in ctx.outcomes)
+    ctx.guard("('locale', 'ascii', 'applicable')" in flat_loc and "('locale', 'ascii', 'not-applicable" not in flat_loc,
+              "the child started with LC_ALL=C PYTHONUTF8=0 PYTHONCOERCECLOCALE=0 really has an ASCII preferred encoding "
+              "(otherwise the locale sweep is not applicable on this machine)")
+    ctx.guard("('locale', 'utf-8', 'applicable')" in flat_loc, "the control child has a UTF-8 preferred encoding")
     ctx.sweep(run_addressed, addressed_cases(), chunk=4, name="feature files on disk x how they are addressed (real Runner)")
     ctx.sweep(run_hostile, switch_cases(), chunk=16, name="128 userdata switch combinations x 3 shapes")
     ctx.sweep(run_hostile, pair_cases(ctx.tier), chunk=32, name="hostile pairs on the small shape")
